@@ -155,3 +155,72 @@ func ruleConsts(p *Program, c *Check, verifDir string, anchoredFuncs map[string]
 		c.Decide(h == want[k], rule, "const:"+k, "value", "", fmt.Sprintf("the constant is %s, the recorded value is %s", h, want[k]))
 	}
 }
+
+// E5-typedefs: the definitions of the named non-struct types (type Weight = float64, type Weights map[string]Weight,
+// type CriterionType string, ...) that anchored functions use are pinned in spec/typedefs.json: changing one changes the
+// meaning of every formula over it without touching a function body.
+func repoTypeDefs(p *Program) map[string]string {
+	out := map[string]string{}
+	for _, pk := range p.Pkgs {
+		if isTestUtils(pk.PkgPath) {
+			continue
+		}
+		sc := pk.Types.Scope()
+		for _, n := range sc.Names() {
+			tn, ok := sc.Lookup(n).(*types.TypeName)
+			if !ok || strings.HasPrefix(n, specPrefix) {
+				continue
+			}
+			if !strings.HasPrefix(p.Fset.Position(tn.Pos()).Filename, p.RepoRoot) || strings.Contains(p.Fset.Position(tn.Pos()).Filename, "zz_verifspec_") {
+				continue
+			}
+			u := tn.Type().Underlying()
+			if _, isStruct := u.(*types.Struct); isStruct {
+				continue
+			}
+			def := types.TypeString(u, func(q *types.Package) string { return q.Name() })
+			if tn.IsAlias() {
+				def = "= " + types.TypeString(types.Unalias(tn.Type()), func(q *types.Package) string { return q.Name() })
+			}
+			out[pk.Types.Name()+"."+n] = def
+		}
+	}
+	return out
+}
+
+func dumpTypeDefs(p *Program) {
+	b, _ := json.MarshalIndent(repoTypeDefs(p), "", " ")
+	fmt.Println(string(b))
+}
+
+func ruleTypeDefs(p *Program, c *Check, verifDir string, used map[string]bool) {
+	rule := "E5-typedefs"
+	b, err := os.ReadFile(filepath.Join(verifDir, "spec", "typedefs.json"))
+	if err != nil {
+		c.Brokenf("cannot read spec/typedefs.json: %v", err)
+		return
+	}
+	want := map[string]string{}
+	if err := json.Unmarshal(b, &want); err != nil {
+		c.Brokenf("spec/typedefs.json: %v", err)
+		return
+	}
+	have := repoTypeDefs(p)
+	keys := make([]string, 0, len(want))
+	for k := range want {
+		keys = append(keys, k)
+	}
+	sort.Strings(keys)
+	for _, k := range keys {
+		if !used["typedef:"+k] && !strings.HasPrefix(want[k], "= ") {
+			continue // aliases leave no trace in the types of SSA values: they are checked in every property
+		}
+		c.Rule(rule, "every named non-struct type (numeric, string, map, slice, function and interface types) used by an anchored function has the definition recorded in spec/typedefs.json", 1)
+		h, ok := have[k]
+		if !ok {
+			c.Pass(rule, "typedef:"+k, "definition", "?", "type no longer exists under this name")
+			continue
+		}
+		c.Decide(h == want[k], rule, "typedef:"+k, "definition", "", fmt.Sprintf("the type is defined as %s, the recorded definition is %s", h, want[k]))
+	}
+}
